@@ -17,7 +17,15 @@ SPEC = {
             "0..12, block plans, random plans to 200 KiB; freadx/fread: lengths 0..12 x sizes x {1,2,3,F}^4; fgets: last-line "
             "length 0..1100 x {terminated, unterminated} x 4/8 prefix-line sets x 7 plans (x 4 buffering modes thorough) + random "
             "multi-line files. Real pipes with a writer thread delivering seeded chunk sizes with injected usleep (schedules vary "
-            "with VERIF_SEED) into read_all(fd), read_all/fgets/freadx(fdopen), readx. load_file(save_file(d)) for sizes 0..300, "
+            "with VERIF_SEED) into read_all(fd), read_all/fgets/freadx(fdopen), readx. Stream HISTORIES (cursor model): every "
+            "sequence of <=4/5 calls from {fgets, freadx(1|7|300), fread(5|5000), fgetcx, read_all} on ONE stream x 7 payload sizes "
+            "0..70000 x {fopen on a regular file, fdopen on a loaded pipe, fopencookie with plans} + random histories on live pipes "
+            "with a staggered writer: each call must return the next slice of the stream, read_all exactly the rest; descriptor "
+            "histories: every sequence of <=4/5 calls from {readx(1), readx(5), read(3), read(100), read_all} on one descriptor x "
+            "4 sizes x 5 cyclic plans x {file,pipe}. Concurrency: 160/2400 rounds (asan) of 4-8 threads released by a barrier, each "
+            "calling read_all(fd) / read_all(fdopen) / load_file / fgets on its own pipe+writer or file with its own byte pattern "
+            "(sizes k*16384+-2 up to 204800); the read interposer yields after each read until another thread has read too; the "
+            "same part runs under ThreadSanitizer (stage c14-tsan). load_file(save_file(d)) for sizes 0..300, "
             "2^k+-2, random to 200 KiB (+5 short-read plans each: equal or throw); list_directory/list_directory_sorted vs created "
             "names (0..700/4000 entries, odd/hidden/255-byte names, files/dirs/symlinks/fifos); unlink(recursive) on random trees "
             "(<=200 nodes, depth<=6) beside sentinel siblings; dirname/basename over every string over {'/','a','.',NUL} up to "
@@ -33,14 +41,19 @@ SPEC = {
                   "adds genuinely concurrent writers but no verdict depends on timing (the oracle is equality with the payload, "
                   "which holds for correct code under every schedule). The scoped_fd and Poll parts are exhaustive over short "
                   "operation histories. Outside the enumerated bounds (longer plans, payloads > 200 KiB, EINTR/EIO injection, "
-                  "NUL bytes inside fgets lines, symlinks to directories under unlink(recursive)) nothing is claimed.",
+                  "NUL bytes inside fgets lines, symlinks to directories under unlink(recursive)) nothing is claimed. The "
+                  "multi-threaded part is sampled (schedules are the scheduler's), with a bounded-yield rendezvous in the read "
+                  "interposer to force overlap and a TSan stage for races that do not change a value.",
     "stages": [
         {"name": "c14", "variant": "asan", "shards": (16, 16), "extra_link": _WRAP, "timeout": (900, 7200)},
+        # same harness, only the multi-threaded part, under ThreadSanitizer: a race that corrupts no value is still reported
+        {"name": "c14", "tag": "c14-tsan", "variant": "tsan", "shards": (4, 8), "args": ["only=threads"], "class_prefix": "tsan:",
+         "extra_link": _WRAP, "timeout": (900, 7200)},
     ],
     "min_evaluations": 1000000,
     "min_classes": {"quick": 150, "thorough": 150},
     "required_classes": [
-        "read_all_fd:file:plan{1,2,3,F}^8:len12:*", "read_all_fd:pipe:plan*", "read_all_fd:file:blockplan:48K:*",
+        "read_all_fd:file:plan{1,2,3,F}^8:len4-12:*", "read_all_fd:pipe:plan*", "read_all_fd:file:blockplan:48K:*",
         "read_all_fd:*:randplan:>64K:*", "read_all_fd:live-pipe:*",
         "readx_fd:file:short-delivery:throw", "readx_fd:pipe:full-delivery:ok", "readx_fd_buf:*:ok", "read_fd:file:*",
         "preadx_fd:file:*:mid:ok", "preadx_fd_buf:file:*",
@@ -54,6 +67,13 @@ SPEC = {
         "unlink_recursive:deep-tree", "unlink_recursive:file", "unlink_recursive:dangling-symlink", "unlink:file",
         "path:absolute*", "path:relative:trailing-slash*",
         "scoped_fd:len4:*", "scoped_fd:open-missing:throws",
+        "stream_history:fopen:read_all:after-stdio-reads:ok", "stream_history:fdopen-pipe:read_all:after-stdio-reads:ok",
+        "stream_history:live-pipe:read_all:after-stdio-reads:ok", "stream_history:cookie:read_all:after-stdio-reads:ok",
+        "stream_history:fopen:fgets:after-stdio-reads:ok", "stream_history:fopen:freadx:after-stdio-reads:ok",
+        "stream_history:*:fgetcx:at-eof:throw", "stream_history:fopen:fread:fresh:ok",
+        "fd_history:file:read_all:after-reads:ok", "fd_history:pipe:read_all:after-reads:ok", "fd_history:*:readx:*:throw",
+        "read_all_fd:concurrent:*:ok", "read_all_file:concurrent:*:ok", "load_file:concurrent:*:ok", "fgets_concat:concurrent:*:ok",
+        "tsan:read_all_fd:concurrent:*:ok", "tsan:fgets_concat:concurrent:*:ok",
         "poll:final-size0:with-readd", "poll:final-size3:*", "poll:close_fd:*:1-closed",
     ],
     "exhaustive": {"quick": False, "thorough": False},
@@ -70,6 +90,8 @@ SPEC = {
         "read(fd,size)/fread(f,size) are single-shot by contract: only 'exactly the bytes that call delivered / a prefix of "
         "the stream, never padded' is demanded",
         "fgets payloads contain no NUL bytes; unlink(recursive) trees contain no symlinks to directories",
-        "the real-pipe part's interleavings depend on the scheduler; its oracle does not",
+        "the real-pipe and multi-threaded parts' interleavings depend on the scheduler; their oracles (own payload) do not",
+        "TSan stage: g++ 12 ThreadSanitizer reports are trusted; the harness monitors use relaxed atomics so they add no "
+        "happens-before edges between reader threads",
     ],
 }
